@@ -199,6 +199,11 @@ impl DocumentBlock {
                 }
                 let last_block = item.last_mut().unwrap();
                 last_block.append_inline(inline, line_range.clone());
+                // the text of a tight item has no paragraph of its own in the event stream: it
+                // covers the lines of everything appended to it
+                if let DocumentBlock::Para(para) = last_block {
+                    para.line_range.end = para.line_range.end.max(line_range.end);
+                }
             }
             DocumentBlock::BulletList(list) => {
                 let item = list.items.last_mut().unwrap();
@@ -211,6 +216,11 @@ impl DocumentBlock {
                 }
                 let last_block = item.last_mut().unwrap();
                 last_block.append_inline(inline, line_range.clone());
+                // the text of a tight item has no paragraph of its own in the event stream: it
+                // covers the lines of everything appended to it
+                if let DocumentBlock::Para(para) = last_block {
+                    para.line_range.end = para.line_range.end.max(line_range.end);
+                }
             }
             DocumentBlock::Header(header) => header.inlines.push(inline),
             DocumentBlock::HorizontalRule(_) => {}
